@@ -1,8 +1,188 @@
 import ApolloModel.Model.Proto
-open Apollo Apollo.Proto
+import ApolloModel.Model.Coercion
+open Apollo Apollo.Proto Apollo.Coercion
 namespace Driver
 
-/-- streams of property C28 are named `c28.<name>` -/
-def c28 (_stream : String) (_fs : List String) : String := "unknown-stream"
+/-! streams of property C28 are named `c28.<name>`; token code written by harness/src/p28.rs -/
+namespace D28
+
+abbrev Toks := List String
+
+def flatten : List (String × List String) → List String
+  | [] => []
+  | (k, v) :: rest => ("k" ++ k) :: v ++ flatten rest
+
+def tail1 (t : String) : String := String.ofList (t.toList.drop 1)
+
+def parseInt (t : String) : Option Int :=
+  match t.toList with
+  | '-' :: ds => (String.ofList ds).toNat?.map fun n => -(Int.ofNat n)
+  | ds => (String.ofList ds).toNat?.map Int.ofNat
+
+/-- type reference: `l` / `L` prefix tokens, then `n<name>` / `N<name>` -/
+def decTy : Nat → Toks → Option (Ty × Toks)
+  | 0, _ => none
+  | fuel + 1, ts =>
+    match ts with
+    | [] => none
+    | t :: rest =>
+      if t == "l" then (decTy fuel rest).map fun (x, r) => (.list x, r)
+      else if t == "L" then (decTy fuel rest).map fun (x, r) => (.nonNullList x, r)
+      else match t.toList with
+        | 'n' :: nm => some (.named (String.ofList nm), rest)
+        | 'N' :: nm => some (.nonNullNamed (String.ofList nm), rest)
+        | _ => none
+
+mutual
+/-- JSON value / constant literal (`e<name>` only in literals) -/
+def decVal : Nat → Toks → Option (Value × Toks)
+  | 0, _ => none
+  | fuel + 1, ts =>
+    match ts with
+    | [] => none
+    | t :: rest =>
+      match t.toList with
+      | ['z'] => some (.null, rest)
+      | ['t'] => some (.bool true, rest)
+      | ['f'] => some (.bool false, rest)
+      | 'i' :: ds => (parseInt (String.ofList ds)).map fun z => (.int z, rest)
+      | 'd' :: ds => some (.float (String.ofList ds), rest)
+      | 's' :: ds => some (.str (String.ofList ds), rest)
+      | 'e' :: ds => some (.enum (String.ofList ds), rest)
+      | 'a' :: ds => do
+        let n ← (String.ofList ds).toNat?
+        let (xs, r) ← decVals fuel n rest
+        pure (.list xs, r)
+      | 'o' :: ds => do
+        let n ← (String.ofList ds).toNat?
+        let (kvs, r) ← decFields fuel n rest
+        pure (.obj kvs, r)
+      | _ => none
+def decVals : Nat → Nat → Toks → Option (List Value × Toks)
+  | 0, _, _ => none
+  | _ + 1, 0, ts => some ([], ts)
+  | fuel + 1, k + 1, ts => do
+    let (x, r) ← decVal fuel ts
+    let (xs, r2) ← decVals fuel k r
+    pure (x :: xs, r2)
+def decFields : Nat → Nat → Toks → Option (List (String × Value) × Toks)
+  | 0, _, _ => none
+  | _ + 1, 0, ts => some ([], ts)
+  | fuel + 1, k + 1, ts =>
+    match ts with
+    | [] => none
+    | key :: rest => do
+      let (x, r) ← decVal fuel rest
+      let (xs, r2) ← decFields fuel k r
+      pure ((tail1 key, x) :: xs, r2)
+end
+
+/-- `<name-token> <type> (- | = <literal>)` -/
+def decDef (fuel : Nat) (ts : Toks) : Option (InputDef × Toks) :=
+  match ts with
+  | [] => none
+  | nameTok :: rest => do
+    let (ty, r) ← decTy fuel rest
+    match r with
+    | "-" :: r2 => pure ({ name := tail1 nameTok, ty := ty, default := none }, r2)
+    | "=" :: r2 =>
+      let (d, r3) ← decVal fuel r2
+      pure ({ name := tail1 nameTok, ty := ty, default := some d }, r3)
+    | _ => none
+
+def decDefs (fuel : Nat) : Nat → Toks → Option (List InputDef × Toks)
+  | 0, ts => some ([], ts)
+  | k + 1, ts => do
+    let (d, r) ← decDef fuel ts
+    let (ds, r2) ← decDefs fuel k r
+    pure (d :: ds, r2)
+
+def decNames : Nat → Toks → Option (List String × Toks)
+  | 0, ts => some ([], ts)
+  | k + 1, t :: rest => do
+    let (xs, r) ← decNames k rest
+    pure (tail1 t :: xs, r)
+  | _ + 1, [] => none
+
+def decTypes (fuel : Nat) : Nat → Toks → Option (AList TypeDef × Toks)
+  | 0, ts => some ([], ts)
+  | k + 1, ts =>
+    match ts with
+    | [] => none
+    | t :: rest =>
+      match t.toList with
+      | 'S' :: nm => do
+        let (more, r) ← decTypes fuel k rest
+        pure ((String.ofList nm, .scalar) :: more, r)
+      | 'O' :: nm => do
+        let (more, r) ← decTypes fuel k rest
+        pure ((String.ofList nm, .output) :: more, r)
+      | 'E' :: nm =>
+        match rest with
+        | cnt :: rest2 => do
+          let c ← cnt.toNat?
+          let (vals, r) ← decNames c rest2
+          let (more, r2) ← decTypes fuel k r
+          pure ((String.ofList nm, .enum vals) :: more, r2)
+        | [] => none
+      | 'I' :: nm =>
+        match rest with
+        | cnt :: rest2 => do
+          let c ← cnt.toNat?
+          let (fs, r) ← decDefs fuel c rest2
+          let (more, r2) ← decTypes fuel k r
+          pure ((String.ofList nm, .input fs) :: more, r2)
+        | [] => none
+      | _ => none
+
+def toks (field : String) : Toks := (String.ofList (decodeField field)).splitOn " "
+
+def insertS (k : String) (v : List String) : List (String × List String) → List (String × List String)
+  | [] => [(k, v)]
+  | (k', v') :: rest => if k < k' then (k, v) :: (k', v') :: rest else (k', v') :: insertS k v rest
+
+mutual
+/-- canonical printing: keys sorted at every level -/
+def render : Json → List String
+  | .null => ["z"]
+  | .bool b => [if b then "t" else "f"]
+  | .int z => ["i" ++ toString z]
+  | .float t => ["d" ++ t]
+  | .str s => ["s" ++ s]
+  | .arr xs => ("a" ++ toString xs.length) :: renderList xs
+  | .obj kvs => ("o" ++ toString kvs.length) :: flatten (sortFields kvs)
+def renderList : List Json → List String
+  | [] => []
+  | x :: xs => render x ++ renderList xs
+def sortFields : List (String × Json) → List (String × List String)
+  | [] => []
+  | (k, v) :: rest => insertS k (render v) (sortFields rest)
+end
+
+def cv (schema vars values : String) : String :=
+  let st := toks schema
+  let vt := toks vars
+  let jt := toks values
+  let fuel := st.length + vt.length + jt.length + 4
+  match st, vt with
+  | sc :: srest, vc :: vrest =>
+    match sc.toNat?, vc.toNat? with
+    | some sn, some vn =>
+      match decTypes fuel sn srest, decDefs fuel vn vrest, decVal fuel jt with
+      | some (types, []), some (defs, []), some (.obj kvs, []) =>
+        match coerceVariableValues { types := types } defs (Value.toJsonFields kvs) with
+        | .ok r => " ".intercalate ("ok" :: render (.obj r))
+        | .error .outOfFuel => "out-of-fuel"
+        | .error _ => "err"
+      | _, _, _ => "bad-case"
+    | _, _ => "bad-case"
+  | _, _ => "bad-case"
+
+end D28
+
+def c28 (stream : String) (fs : List String) : String :=
+  match stream, fs with
+  | "c28.cv", [schema, vars, values] => D28.cv schema vars values
+  | _, _ => "unknown-stream"
 
 end Driver
